@@ -139,7 +139,9 @@ def run_family_check(ctx, pid, n_quick, n_thorough, want=("report",), config_hoo
             ctx.violation("OutputFilesAreCompleteRecords", f"{pid}:garbled-output-file", dict(argv=ev["argv"], failed=ev["failed"], config=ev["C"]),
                           case=dict(C=ev["C"], replay=ev.get("_replay")))
         if ev["failed"]["exit"] == -1:
-            owners = CRASH_OWNERS.get((ev["failed"].get("site") or "").split(":")[0])
+            site = ev["failed"].get("site") or ""
+            # (the assertion in Statistics.as_json is the conservation law input = written + filtered itself)
+            owners = {"C04"} if site == "report.py:as_json" else CRASH_OWNERS.get(site.split(":")[0])
             if owners is not None and pid not in owners:
                 d = ctx.extra.setdefault("crashes_attributed_to_other_properties", {})
                 d[ev["failed"].get("site")] = d.get(ev["failed"].get("site"), 0) + 1
